@@ -108,6 +108,20 @@ class Metamorphic(Suite):
                             tf["xyz"][i] = q
                 out.append({"class": f"far/{shape}", "tree": tf, "kind": "far",
                             "shift": [rng.choice([8192.0, -12288.0, 4096.0, 10240.0]) for _ in range(3)]})
+        # bifurcations whose two daughters leave in exactly opposite directions (180°) or whose daughter continues the parent segment
+        # exactly: the angles sit on the boundary of arccos, in every pose
+        for rep in range(14 if not big else 40):
+            d = rng.choice([(1, 0, 0), (0, 1, 0), (1, 1, 0), (1, 2, 2), (3, 3, 0), (0, 0, 1), (2, -1, 2)])
+            a, b = rng.randint(1, 3), rng.randint(1, 3)
+            o = [rng.randint(-3, 3) / 2 for _ in range(3)]
+            stem = [o[i] - 1.5 * d[i] for i in range(3)]
+            xyz = [stem, o, [o[i] + a * d[i] for i in range(3)], [o[i] - b * d[i] + (0.0 if rep % 4 else [0.5, -0.5, 0.25][i]) for i in range(3)],
+                   [o[i] + (a + 1) * d[i] + [0.0, 1.0, 0.5][i] for i in range(3)]]
+            t = {"class": "collinear", "n": 5, "pids": [-1, 0, 1, 1, 2], "types": [1, 3, 3, 3, 3], "xyz": [[float(c) for c in q] for q in xyz],
+                 "r": [0.5, 0.25, 0.25, 0.25, 0.125]}
+            ax = [rng.gauss(0, 1) for _ in range(3)]; nrm = math.sqrt(sum(v * v for v in ax)) or 1.0
+            out.append({"class": "rigid/collinear", "tree": t, "kind": "rigid", "axis": [v / nrm for v in ax], "theta": rng.uniform(-3.1, 3.1),
+                        "shift": [rng.randint(-80, 80) / 4 for _ in range(3)], "center": rng.choice(["root", "origin"])})
         return out
 
     def _radii(self, t):
